@@ -177,7 +177,10 @@ def cli_stream(ctx, wtf, nseq):
             before = open(nb, "rb").read() if os.path.exists(nb) else None
             p = subprocess.run([wtf] + argv, cwd=os.path.join(d, "cwd"), env=env, stdin=subprocess.DEVNULL, stdout=subprocess.PIPE, stderr=subprocess.PIPE, timeout=60)
             out, err = p.stdout.decode("utf-8", "replace"), p.stderr.decode("utf-8", "replace")
-            success = ("Command saved successfully!" in out) or ("Pipeline saved successfully!" in out)
+            # what "reported success" looks like is wording: taken from the lines the translator read off the two handlers on this
+            # run (Gen facts); when it could not read them the check is a violation anyway and wording-dependent monitors stay silent
+            succ_lines = ctx.facts.get("savecmds.successLines") or []
+            success = any(x in out for x in succ_lines)
             after = open(nb, "rb").read() if os.path.exists(nb) else None
             ctx.cov["evaluations"] += 1
             rep = dict(kind="impl-counterexample", argv=[a.decode("utf-8", "backslashreplace") for a in argv], argv_hex=[a.hex() for a in argv],
@@ -224,7 +227,7 @@ def cli_stream(ctx, wtf, nseq):
                                 dict(rep, search_stdout=qo[-500:], **{"class": "saved-not-found-by-search"}))
             else:
                 tag("cli-save-refused")
-                if after != before:
+                if after != before and succ_lines:
                     ctx.hit("failed-save-changed-file", "wtf %s reported an error but personal.yml changed" % kind, dict(rep, **{"class": "failed-save-changed-file"}))
         # the model on the same sequence (rt = the success the binary reported)
         keep = [(o, s) for o, s in zip(ops[1:], impl_states) if o is not None]
